@@ -159,6 +159,8 @@ def run(ctx):
     ctx.guarded("C02.ctrlarms", lambda c: cv.arms_rule(c, "C02", "cbor"))
     ctx.guarded("C02.root", lambda c: cv.root_rule(c, "C02", "cbor"))
     ctx.guarded("C02.ctrlrestore", lambda c: cv.ctrlrestore_rule(c, "C02", "cbor"))
+    ctx.guarded("C02.ctrlcheck", lambda c: cv.ctrlcheck_rule(c, "C02", "cbor"))
+    ctx.guarded("C02.ctrltarget", lambda c: cv.ctrltarget_rule(c, "C02", "cbor"))
     import c10
     ctx.guarded("C02.ledger", lambda c: c10.r_ledger(c, rid="C02.ledger"))
     ctx.guarded("C02.width", width_rule)
